@@ -209,7 +209,7 @@ for y in range(7):
 
 # ---------------------------------------------------------------- C05
 P = "C05"
-BOUNDS[P] = "fragments(): two-fragment scanlines with arbitrary finite attribute values/steps and power-of-two reciprocal depths (exact division), scalar, Vec2, (f32,Vec3), Color3f, (); tri_fill x affine attribute: all lattice triangles of the 2x2 grid x attribute planes with integer coefficients (alpha,beta in [-1,2], gamma in [-4,4]), w = 1"
+BOUNDS[P] = "fragments(): two-fragment scanlines with arbitrary finite attribute values/steps and power-of-two reciprocal depths (exact division), scalar, Vec2, (f32,Vec3), Color3f, (); tri_fill x affine attribute: all lattice triangles of the 2x2 grid x attribute planes with integer coefficients (alpha,beta in [-1,2], gamma in [-4,4]), w = 1; fragments() on a 20-fragment scanline with reciprocal depths z0*(k+1): fragment 8 (quick) / 19 (thorough) perspective-correct within 1e-5 relative"
 OUTSIDE[P] = ["perspective (w != 1) through tri_fill: tolerance proof over free floats did not finish in 30 min", "arbitrary float attributes / depths through tri_fill", "finiteness for arbitrary finite input with area > 1e-6", "Angle attributes (ZDiv is the identity by design)"]
 LEVEL_TEXT[P] = ("Bounded model checking: the per-fragment perspective division is decided bit-for-bit on arbitrary scanlines for scalar, vector, tuple and colour attributes; "
                  "interpolation through tri_fill is decided exactly on the lattice for every affine attribute plane with small integer coefficients.")
@@ -266,8 +266,8 @@ H(P, "c06", "c07_framebuf_flags", ("bare",), "arbitrary span / flags (see C07)",
 
 # ---------------------------------------------------------------- C09
 P = "C09"
-BOUNDS[P] = "then vs compose: affine matrices with small integer entries; transpose: arbitrary float matrices; apply o compose: 3x3 affine with entries {-1,0,1}; 4x4: A affine with entries {-1,0,1}, B = translate o scale built with the constructors; integer probes; inverse: all M = P*D*T with P any axis permutation, D = diag(+-2^k), |k|<=2, T integer translation in [-3,3]^3, and all triangular (sheared) matrices with diagonal +-2^k, integer shears in [-2,2] and integer translation; constructors: arbitrary finite floats <= 2^60; determinant: affine matrices with entries in {-1,0,1}"
-OUTSIDE[P] = ["inverse of arbitrary well-conditioned float matrices (tolerance proof over 16 free floats)", "rotate_x/y/z, orient_y/z: values of sin/cos/normalize (transcendentals have no solver semantics)", "apply() on *vectors* uses the homogeneous 1 (documented TODO in the source): translation leaks into vectors; recorded as a known finding, not asserted"]
+BOUNDS[P] = "then vs compose: affine matrices with small integer entries; transpose: arbitrary float matrices; apply o compose: 3x3 affine with entries {-1,0,1}; 4x4: A affine with entries {-1,0,1}, B = translate o scale built with the constructors; integer probes; inverse: all M = P*D*T with P any axis permutation, D = diag(+-2^k), |k|<=2, T integer translation in [-3,3]^3, and all triangular (sheared) matrices with diagonal +-2^k, integer shears in [-2,2] and integer translation; constructors: arbitrary finite floats <= 2^60; determinant: affine matrices with entries in {-1,0,1}; orient_y/orient_z: a concrete table of 4 unit axes x 3 unit directions (cfg libm, test-like)"
+OUTSIDE[P] = ["inverse of arbitrary well-conditioned float matrices (tolerance proof over 16 free floats)", "rotate_x/y/z, and orient_y/z off the concrete table: values of sin/cos/normalize (transcendentals have no solver semantics; libm powf is tractable on constants only)", "apply() on *vectors* uses the homogeneous 1 (documented TODO in the source): translation leaks into vectors; recorded as a known finding, not asserted"]
 LEVEL_TEXT[P] = ("Bounded model checking with relational oracles (two runs of the real code must agree exactly) on integer / power-of-two families where float arithmetic is exact: "
                  "composition vs sequential application, then vs compose, Gauss-Jordan inverse under every pivoting pattern, constructors' defining effects on arbitrary floats, multiplicative determinant.")
 H(P, "c09", "c09_then_is_compose_swapped", ("bare",), "arbitrary float 4x4 and 3x3 pairs", "a.then(b) bit-identical to b.compose(a)", unwind=6, est=60)
@@ -286,10 +286,10 @@ H(P, "c09", "c09_transpose", ("bare",), "arbitrary float 4x4", "transpose swaps 
 
 # ---------------------------------------------------------------- C08
 P = "C08"
-BOUNDS[P] = "perspective: f, aspect in 2^[-2,2], near in 2^[-4,4], far/near in 2^[1,10], depths near*2^j, x,y integers in [-8,8] (exact arithmetic); orthographic: integer corners, power-of-two extents; viewport: all u32 rectangles <= 4096; Rect algebra: all rects with optional bounds <= 8 against point membership; Camera: dims <= 64x64, requested viewports with bounds <= 100 in three range forms"
-OUTSIDE[P] = ["perspective on arbitrary float parameters (near/far -> -1/+1 within tolerance exceeded 15 min)", "FirstPerson (look_at, rotate_to, translate, world_to_view): atan2 / sin_cos / wrap values are transcendental or go through float %", "Camera::render (goes through render())"]
+BOUNDS[P] = "perspective: f, aspect in 2^[-2,2], near in 2^[-4,4], far/near in 2^[1,10], depths near*2^j, x,y integers in [-8,8] (exact arithmetic); orthographic: integer corners, power-of-two extents; viewport: all u32 rectangles <= 4096; Rect algebra: all rects with optional bounds <= 8 against point membership; Camera: dims <= 64x64, requested viewports with bounds <= 100 in three range forms; FirstPerson::translate (cfg libm): three (thorough: four) concrete headings x every finite position and displacement <= 1024"
+OUTSIDE[P] = ["perspective on arbitrary float parameters (near/far -> -1/+1 within tolerance exceeded 15 min)", "FirstPerson look_at, rotate_to, world_to_view, and translate on headings outside the concrete table: atan2 / sin_cos / wrap values are transcendental or go through float % (world_to_view with a symbolic position: 11 M variables, no verdict in 30 min)", "Camera::render (goes through render())"]
 LEVEL_TEXT[P] = ("Bounded model checking on exact (dyadic / integer) parameter families: perspective and orthographic map their view volume to the clip volume with near/far at the depth bounds and depth order preserved; "
-                 "viewport maps the NDC square onto the pixel rectangle exactly; Rect algebra against a point-membership oracle; Camera confines its viewport to the frame.")
+                 "viewport maps the NDC square onto the pixel rectangle exactly; Rect algebra against a point-membership oracle; Camera confines its viewport to the frame; FirstPerson::translate moves along the horizontal heading, right and up axes for every position and displacement on concrete headings (cfg libm).")
 H(P, "c08", "c08_perspective_dyadic", ("bare",), "f,a in 2^[-2,2]; near in 2^[-4,4]; far = near*2^[1,10]; z = near*2^j; x,y in [-8,8]", "w == z; x_c == f x; y_c == f a y; near -> -1, far -> +1 (1e-6); order kept; side planes <=> pyramid", unwind=6, est=300, cap=900)
 H(P, "c08", "c08_perspective_rejects", ("bare",), "finite parameters with f<=0 or a<=0 or near<=0 or far<=near", "panics", kind="should_panic", est=20)
 H(P, "c08", "c08_orthographic_dyadic", ("bare",), "integer lbn in [-8,8]^3, extents 2^[0,4]", "corners -> (-1,-1,-1,1)/(1,1,1,1), centre -> origin", unwind=6, est=120)
@@ -303,7 +303,7 @@ H(P, "c08", "c08_camera_projection", ("bare",), "dims <= 64x64, f in 2^[-2,2], i
 
 # ---------------------------------------------------------------- C13
 P = "C13"
-BOUNDS[P] = "binary formats P5/P6: a fixed table of 12 header spellings (separators LF/TAB/CR/space, comments before and between fields, zero and overflowing dimensions) x arbitrary payload bytes (<= 9) x every truncation point; unsupported magic x 3 arbitrary tail bytes; round trip of 2x2 sub-views of a 3x3 image with arbitrary pixels (cfg std)"
+BOUNDS[P] = "binary formats P5/P6: a fixed table of 12 header spellings (separators LF/TAB/CR/space, comments before and between fields, zero and overflowing dimensions) x arbitrary payload bytes (<= 9) x every truncation point; unknown magic numbers and P1 files with out-of-range samples (concrete table); round trip of 2x2 sub-views of a 3x3 image with arbitrary pixels (cfg std)"
 OUTSIDE[P] = ["arbitrary / mutated header text: any symbolic header digit makes parse_num (String + str::parse) time out", "text formats P2/P3 with symbolic samples and their agreement with P5/P6", "P4 bitmaps: the decoder's nested flat_map over bits does not get through symbolic execution even for one payload byte (15 min in symex)", "images larger than 3x3", "the header table is a finite hand-picked list: that half is test-like"]
 LEVEL_TEXT[P] = ("Bounded model checking of parse_pnm with concrete header text and fully symbolic binary payload/truncation: no panic, Ok => dimensions and pixel count match the header and pixels are the payload verbatim, "
                  "short payload => Err; zero-sized and overflowing dimensions never panic; write_ppm -> read_pnm round trip on strided views.")
@@ -323,8 +323,8 @@ H(P, "c13", "c13_roundtrip_2x2_view", ("std",), "2x2 sub-view at any offset of a
 
 # ---------------------------------------------------------------- C17
 P = "C17"
-BOUNDS[P] = "evaluators: integer control points in [-2,2]^4 (f32, Vec2, Point2), t in {1/4,1/2,3/4} (exact lattice); ends/totality: every float t and control point incl. NaN; spline segments: n = 1,2,3,4,8 segments on collinear control points for every float t; n = 2,4 on integer control points at t = j/(4n); joins: n = 1..4, integer control points in [-4,4]; approximate(): every subdivision tree of depth <= 2 on the curve 3t^2"
-OUTSIDE[P] = ["agreement of eval and fast_eval on arbitrary floats (tolerance proof)", "approximate(): the recursion-depth bound 10 + log2(len) (needs depth >= 12) and multi-segment splines; error criterion semantics beyond the subdivision-tree shape", "segment counts above 4; 3-D and colour instances", "BezierSpline::tangent scaling by the segment count"]
+BOUNDS[P] = "evaluators: integer control points in [-2,2]^4 (f32, Vec2, Point2), t in {1/4,1/2,3/4} (exact lattice); ends/totality: every float t and control point incl. NaN; spline segments: n = 1,2,3,4,8 segments on collinear control points for every float t; n = 2,4 on integer control points at t = j/(4n); joins: n = 1..4, integer control points in [-4,4]; approximate(): every subdivision tree of depth <= 2 on the curve 3t^2; the depth budget itself (via hook) at budget 2"
+OUTSIDE[P] = ["agreement of eval and fast_eval on arbitrary floats (tolerance proof)", "approximate(): the numeric value of the recursion-depth bound, 10 + log2(len) (needs depth >= 12; the budget mechanism is checked at budget 2 through the hook) and multi-segment splines; error criterion semantics beyond the subdivision-tree shape", "segment counts above 4; 3-D and colour instances", "BezierSpline::tangent scaling by the segment count"]
 LEVEL_TEXT[P] = ("Bounded model checking: evaluators and tangent against the integer Bernstein form on an exact lattice, end-point and NaN behaviour for all floats, "
                  "spline segment selection bit-identical to the per-segment cubic for every float parameter, join interpolation.")
 H(P, "c17", "c17_evaluators_lattice_f32", ("bare",), "integer control points [-2,2]^4, t = k/4", "eval*64 == fast_eval*64 == Bernstein integer form; tangent*16 == derivative; inside control bounds", est=120, cap=900)
